@@ -117,7 +117,7 @@ theorem resolve_fold {m : Mapping} {pred : Rewrite → Bool} {rank : Nat → Nat
         rw [leaves_key hac hg]
         have hgen : dedup (rw.newParentIds.flatMap (lookupOr nm'))
             = dedup (rw.newParentIds.flatMap (leaves m pred rank)) := by
-          rw [flatMap_congr' hlk]
+          rw [flatMap_congr_on hlk]
           exact dedup_flatMap_dedup _ _ []
         unfold resolvedIds
         match hrp : rw.newParentIds, hlk, hgen with
